@@ -265,6 +265,14 @@ func (b *Batch) flushStagedAndUpdateFile() error {
 
 // 刷新缓存
 func (b *Batch) flushStaged() error {
+	// 当前活跃文件剩余空间不足以容纳暂存数据和完成标识记录时, 先更新活跃文件
+	if size := b.db.activeFile.Size(); size > 0 &&
+		size+b.cachedDataSize+maxFinRecord > b.db.options.DataFileSize {
+		if err := b.db.sync(); err != nil {
+			return err
+		}
+	}
+
 	// 顺序遍历暂存数据依次追加磁盘
 	for _, record := range b.staged {
 		record.BatchID = uint64(b.batchID)
